@@ -107,6 +107,20 @@ PROPS["C09"] = {
     "assumptions": COMMON_ASSUME + ["with a concurrent appender the clean may observe any prefix of the concurrent appends: the removed count must lie between what the log before and the log after require"],
 }
 
+H3_ASSUME = COMMON_ASSUME + ["the simulated bus keeps exactly core NATS guarantees (per-connection FIFO, at most once)", "the Raft stub commits in one global order; Raft itself is not under test", "API handlers are called in-process on the server's node (gRPC bypassed)"]
+
+PROPS["C16"] = {
+    "engine": "h3",
+    "level": "exploration",
+    "budget": {"quick": 40, "thorough": 600},
+    "runs_per_proc": 60,
+    "technique": "deterministic simulation of one real server: 2-8 publisher tasks race conditional publishes through the real API, NATS bus and partition message loop under seeded schedules; history checked with porcupine against a 'log length' register plus direct log read-back checks",
+    "level_text": "seeded exploration of publish interleavings (delivery order on the stream subject, preemption of the message loop, batching settings); every history is checked for linearizability against the model 'publish(e) succeeds at L iff e in {-1, L}', and the final log is read back: acknowledged values at their offsets, rejected values nowhere, at most one winner per expected offset, waived checks never rejected",
+    "level_note": "single server, replication factor 1, no faults; histories with an unknown outcome (time-out) are not fed to the linearizability checker",
+    "rule": "programs of <=28 (thorough <=44) publishes by 2-8 clients with expected offsets from {-1, current, stale, future}; distinct = distinct event-log hash; non-trivial = at least one accepted and one rejected publish among >=4",
+    "assumptions": H3_ASSUME,
+}
+
 NOT_APPLICABLE = [
     {"property_id": pid, "reason": "check not built yet in this round (engine under construction); see DESIGN.md section 9 build order"}
     for pid in ["C%02d" % i for i in range(1, 20)] if pid not in PROPS
